@@ -792,9 +792,12 @@ theorem getitem_axis_uses_the_source (start stop : Option Int) (n : Int) :
     getitemAxis start stop n = SegGeomTie.getitemAxisGen start stop n :=
   SegGeomTie.getitemAxis_eq_gen start stop n
 
-/-- `get_volume_positions`: tolerances, hint normalisation, single-position spacing, the gaps-allowed branch (multiples
-from the smallest distance, 1 %-of-a-spacing regularity test, zero-gap refusal), the strict branch's mean gap and
-the perpendicularity test of the model are the regenerated ones -/
+/-- `get_volume_positions`: tolerances, hint normalisation, single-position spacing, the gaps-allowed branch (estimate
+without a hint = smallest gap refined over the extent by the regenerated loop body `n = round(D / s)`, `n > 0`, `s := D / n`;
+multiples from the smallest distance, 1 %-of-a-spacing regularity test, zero-gap refusal), the strict branch's mean gap and
+the perpendicularity test of the model are the regenerated ones.  The target refuses (`Unsupported`) when the function or
+one of the two branches of `if allow_missing_positions:` contains a statement it does not consume.  Hand-written
+remainders: `np.diff` / `min` / `sort`, Python's `round` (half to even), the distinct-multiples test (`np.unique`, `len`). -/
 theorem volume_positions_use_the_source :
     (tolSpacing = vpTolSpacing ∧ tolEq = vpTolEq ∧ tolPerp = vpTolPerp) ∧
     (∀ h : Option Rat, normHint h = (match h, vpNormHint h with
